@@ -345,6 +345,8 @@ func runC07(c *Check) {
 	c.ruleTrustedAnswerNeedsEntry("R12")
 	c.ruleFlagRaisedBehindItsArgument("R13")
 	c.ruleSafeDecidedBeforeDelivery("R14")
+	c.ruleUnconfirmedSetKeepsEveryEntry("R15")
+	c.ruleFieldWriters("R16", "storage", "unconfirmedTx", "time", map[string]string{"storage.newUnconfirmedTx": "first seen", "storage.(*TxRepository).MarkTrusted": "the delay restarts when the trusted node vouches", "storage.readUnconfirmedTx": "loaded"}, "the safe delay is measured from this time; a value from elsewhere (a zero time for a tx that came another way) reports the tx safe before the delay has passed")
 	c.ruleLoopVisitsAll("R7", "spynode.(*Node).checkTxDelays", func(v ssa.Value) bool {
 		return derivesFromCall(v, "(*storage.TxRepository).GetNewSafe") != nil
 	}, "newly-safe-tx", "the loop over the txs whose delay has passed can be left early: the txs after that point were already marked safe in the repository by GetNewSafe and are never returned again, so they are never reported safe")
